@@ -407,6 +407,9 @@ func observeP7(der []byte, cert *x509.Certificate, pub any) (M, bool) {
 
 func runP7Mut(sc M) {
 	id := sc["sc"]
+	// the process's time zone plays no part in what is parsed, verified or re-encoded
+	time.Local = zoneOf(str(sc, "tz"))
+	defer func() { time.Local = time.UTC }()
 	var src *p7Source
 	var err error
 	if str(sc, "tool") != "" {
